@@ -594,6 +594,16 @@ func (env *SpecEnv) call(x *SCall) Val {
 				fs = append(fs, v.T)
 			}
 			return Val{T: app("mk_"+so, fs...), Ty: ty, So: so}
+		case "get":
+			// get(m, k): Go's m[k] (the zero value for absent keys)
+			m := env.eval(x.Args[0])
+			mt, ok := m.Ty.Underlying().(*types.Map)
+			if !ok {
+				env.fail("get() on non-map")
+			}
+			k := u.convert(env.eval(x.Args[1]), mt.Key())
+			v, _ := u.mapGet(m, k.T, mt)
+			return Val{T: v, Ty: mt.Elem(), So: u.sortOf(mt.Elem())}
 		case "loopentry":
 			if env.loopPre == nil {
 				env.fail("loopentry() outside a loop clause")
